@@ -351,6 +351,39 @@ def main(tier, seed):
                         validated += 1
                         if err:
                             violations.append(("wrong-solution", "request %s: %s" % (v["tag"], err)))
+        # a long run of failing requests (one after the other, loader-level and late panics alternating), then a valid one:
+        # whatever a failed request leaves behind must not add up (seeded C18h: a counter leaked by every panic shuts the
+        # service after 32 of them)
+        if up and srv.poll() is None:
+            nburst = 80 if tier == "quick" else 400
+            b0 = instgen.gen_instance(rng, {"slots": "none", "ndeps": 2})
+            for j in range(nburst):
+                bad = json.loads(json.dumps(nonce_instance(b0, "burst%d_" % j)))
+                if j % 2:
+                    bad["parameters"]["costs"]["serviceTrip"] = 10 ** 15
+                    bad["parameters"]["costs"]["idle"] = 10 ** 15
+                else:
+                    bad["departures"][0]["route"] = "burst_no_such_route"
+                st, body = request(port, "invalid", json.dumps(bad), timeout=30)
+                counts["burst-invalid->%s" % st] = counts.get("burst-invalid->%s" % st, 0) + 1
+                total += 1
+                if st == 200:
+                    violations.append(("bad-request-answered-200", "burst request %d -> 200 %s" % (j, body[:80])))
+                    break
+            tag = "afterburst_"
+            inst = nonce_instance(instgen.gen_instance(rng), tag)
+            q = {"kind": "valid", "payload": json.dumps(inst), "inst": inst, "tag": tag}
+            q["status"], q["body"] = request(port, "valid", q["payload"])
+            total += 1
+            counts["after-burst->%s" % q["status"]] = 1
+            if q["status"] != 200:
+                violations.append(("valid-after-faults-not-answered",
+                                   "POST /solve after %d failing requests in a row -> %s" % (nburst, q["status"])))
+            else:
+                err = validate_solution(d, q, total)
+                validated += 1
+                if err:
+                    violations.append(("wrong-solution", "request %s: %s" % (tag, err)))
     finally:
         srv.kill()
         srv.wait()
